@@ -187,3 +187,6 @@ PROPS["C09"]["exhaustive_claim"] = True
 PROPS["C09"]["technique"] = "enumerated product sweep (function x route x sender/destination kind x oracle answer x call type x argument count x token kinds) + " + PROPS["C09"]["technique"]
 PROPS["C09"]["rule"] += (" Enumerative part: the full product described under exhaustive_subdomains (1350 combinations, each a short scripted history through the engine: sender side, "
                          "delivery, refund), sharded between processes; a combination's call is non-trivial by the same rule (distinct by construction). exhaustive=true refers to that sweep only.")
+
+PROPS["C04"]["rule"] = PROPS["C04"]["rule"].replace("distinct by (function, which flag and side, outcome, refund flag).", "distinct by (function, which flag and side, outcome, refund flag, call type, caller kind, #args, delivery or not, generator shape labels). One history in three also runs on a shadow world that gets an extra freeze;unfreeze or pause;unpause pair at a drawn step, after which results and decoded ledgers must stay identical (counters shadow_* under extra).")
+PROPS["C09"]["rule"] = PROPS["C09"]["rule"].replace("distinct by (function, reason/side, outcome, call type, #args).", "distinct by (function, reason/side, outcome, call type, #args, caller kind, generator shape labels).", 1)
